@@ -1546,7 +1546,13 @@ type modSet struct {
 	exact  []modLeaf
 	ranges []modRange
 	unders []string
+	rels   map[string]bool // ghost relations (component keys "ghost:name") modified as a whole
 	all    bool
+}
+
+// isRelComp: a ghost relation component (ghost.name(...)), as opposed to a heap array.
+func isRelComp(k string) bool {
+	return strings.HasPrefix(k, "ghost:") && k != "ghost:llen" && k != "ghost:lseq" && k != "ghost:lpos"
 }
 type modLeaf struct{ kind, loc string }
 type modRange struct {
@@ -1566,6 +1572,16 @@ func (ev *evalCtx) modSet(cls []Clause) (*modSet, error) {
 }
 
 func (ev *evalCtx) modOne(ms *modSet, e ast.Expr) error {
+	if sel, ok := e.(*ast.SelectorExpr); ok {
+		if id, ok := sel.X.(*ast.Ident); ok && id.Name == "ghost" {
+			// `modifies ghost.name`: the ghost relation may change arbitrarily
+			if ms.rels == nil {
+				ms.rels = map[string]bool{}
+			}
+			ms.rels["ghost:"+sel.Sel.Name] = true
+			return nil
+		}
+	}
 	if call, ok := e.(*ast.CallExpr); ok {
 		if id, ok := call.Fun.(*ast.Ident); ok {
 			switch id.Name {
@@ -1660,6 +1676,12 @@ func (ms *modSet) inSet(k, l string) string {
 	if ms.all {
 		return "true"
 	}
+	if isRelComp(k) {
+		if ms.rels[k] {
+			return "true"
+		}
+		return "false"
+	}
 	var ds []string
 	for _, e := range ms.exact {
 		if e.kind == k {
@@ -1681,6 +1703,9 @@ func (ms *modSet) kinds(c *FnVC) map[string]bool {
 	ks := map[string]bool{}
 	for _, e := range ms.exact {
 		ks[e.kind] = true
+	}
+	for k := range ms.rels {
+		ks[k] = true
 	}
 	for _, r := range ms.ranges {
 		for k := range r.kinds {
